@@ -76,3 +76,13 @@ Example ex_to_path_hb :
 Proof. vm_compute. reflexivity. Qed.
 Example ex_to_path_error : to_path_model 0 [(0, 0, 1); (5, 5, 128); (9, 9, 1)] [2] = None.
 Proof. vm_compute. reflexivity. Qed.
+
+(* a metrics cache carried over from another location makes a draw return the OLD location's metrics: the
+   soundness hypothesis of c12_auto_draws_function_of_location is necessary (this is what a reconfigure that
+   reuses the autohinter instance would cause) *)
+Example stale_auto_cache_refuted :
+  let compute := fun (coords : list Z) (st : Z) => fold_right Z.add st coords in
+  let stale := fst (auto_draw_all compute [100] [] [7]) in
+  snd (auto_draw_all compute [200] stale [7]) <> map (compute [200]) [7] /\
+  snd (auto_draw_all compute [200] [] [7; 7; 3]) = map (compute [200]) [7; 7; 3].
+Proof. split; [vm_compute; discriminate|vm_compute; reflexivity]. Qed.
